@@ -28,4 +28,18 @@ theorem wsCoefBatch_eq_map' (eps : α) (ts : List (α × α)) :
   intro p _
   unfold rxso3WsCoef
   cases h1 : Scalar.lt eps (sabs p.2) <;> cases h2 : Scalar.lt eps p.1 <;> simp
+
+theorem runOps_filter_changes {β : Type} (ops : List (ObjOp β)) (s : Store β) :
+    runOps s ops = runOps s (ops.filter ObjOp.changes) := by
+  induction ops generalizing s with
+  | nil => rfl
+  | cons o ops ih =>
+    cases o <;> simp [runOps, List.filter, ObjOp.changes, ObjOp.step] at * <;> exact ih _
+
+theorem deepcopy_then_setitem {β γ : Type} (f : β → γ) (s : Store β) (dst src i : Nat) (y : β) (h : dst ≠ src) :
+    readObj f (runOps s [.deepcopy dst src, .setitem src i y]) dst = readObj f s src ∧
+    readObj f (runOps s [.deepcopy dst src, .setitem src i y]) src = (readObj f s src).set i (f y) := by
+  constructor
+  · simp [runOps, ObjOp.step, readObj, h]
+  · simp [runOps, ObjOp.step, readObj, h, Ne.symm h, List.map_set]
 end PP
